@@ -64,6 +64,13 @@ def model(D, late_global=False, disturb=None):
     g += " r = v;\n"                                                             # iter_after
     g += " r = (forall (%s : int[0,%d]) v >= 0) ? 1 : 0;\n" % ("v" if "quant" in D else "w2", UB["quant"])   # quant_inside
     g += " r = v;\n"                                                             # quant_after
+    # statements that *start* with the name right after an unbraced construct that closes a binder's scope: the parser has
+    # already read that token (to see that no `else` follows) when it closes the scope
+    it = "v" if "iter" in D else "w4"
+    g += " r = 101;\n for (%s : int[0,%d]) if (r > 50) r = 1;\n v;\n" % (it, UB["iter"])                    # unbraced_iter_after
+    g += " r = 102;\n for (%s : int[0,%d]) for (w5 : int[0,1]) if (r > 50) r = 1;\n v;\n" % (it, UB["iter"])    # unbraced_nested_after
+    g += " r = 103;\n for (%s : int[0,%d]) while (r > 50) if (r > 60) r = 1;\n v;\n" % (it, UB["iter"])         # unbraced_while_after
+    g += " r = 104;\n for (%s : int[0,%d]) if (r > 50) r = 1; else r = 2;\n v;\n" % (it, UB["iter"])          # unbraced_else_after
     g += " return r;\n}\n"
     g += dist("global-after-function")
     tdecl = dist("template-local") + "int[0,99] t0 = v;\n"                                                # t_before_local
@@ -107,6 +114,8 @@ def reference(D):
     R["iter_after"] = first(D, *fl)
     R["quant_inside"] = first(D, "quant", *fl)
     R["quant_after"] = first(D, *fl)
+    for site in ("unbraced_iter_after", "unbraced_nested_after", "unbraced_while_after", "unbraced_else_after"):
+        R[site] = first(D, *fl)
     R["t_before_local"] = first(D, "tparam", "global")
     tl = ("tlocal", "tparam", "global")
     R["t_after_local"] = first(D, *tl)
@@ -167,6 +176,23 @@ def occurrences(body):
     return out
 
 
+def after_marker(body, marker):
+    """the expression statement `v;` that follows the loop after `r = <marker>;`"""
+    i = body.find("(CONSTANT:INT %d)" % marker)
+    if i < 0:
+        return None
+    # skip the loop statement: the next *expression statement* at the same nesting level as the marker's own statement
+    depth, j = 0, body.rfind("(expr ", 0, i)
+    j = j + len(balanced(body, j))           # end of the marker statement
+    # the loop follows, then the site
+    k = body.find("(", j)
+    if k < 0:
+        return None
+    loop = balanced(body, k)
+    k2 = body.find("(expr ", k + len(loop))
+    return balanced(body, k2 + len("(expr ")) if k2 >= 0 else None
+
+
 def observe(dump):
     O = {}
     gv = {v["name"]: v["init"] for v in dump["globals"]["vars"]}
@@ -184,6 +210,8 @@ def observe(dump):
     for k, n in enumerate(names):
         if n:
             O[n] = occ[k] if k < len(occ) else None
+    for marker, site in ((101, "unbraced_iter_after"), (102, "unbraced_nested_after"), (103, "unbraced_while_after"), (104, "unbraced_else_after")):
+        O[site] = after_marker(body, marker)
     if O.get("quant_inside") and "(GE " in O["quant_inside"]:
         O["quant_inside"] = O["quant_inside"][O["quant_inside"].index("(GE "):]     # the use in the body, not the binder
     t = dump["templates"][0]
